@@ -19,6 +19,7 @@ ENC = {'kern': E.normalizedKern, 'ekern': E.eKern, 'bkern': E.bKern, 'bekern': E
 SEQ = ['k', 'i', 'b', 'd', 'd', 'S0', 'd', 'c', 'd', 'J0', 'k', 'b', 'd', 'z', 'i', 'd', 'b']
 SELECTIONS = [('none', None, None)] + [(f'exclude-{t}', None, (t,)) for t in catref.TOP] + [
     ('exclude-PITCH', None, ('PITCH',)), ('exclude-DURATION', None, ('DURATION',)), ('exclude-DECORATION', None, ('DECORATION',)),
+    ('exclude-ALTERATION', None, ('ALTERATION',)), ('exclude-DURATION-REST', None, ('DURATION', 'REST')),
     ('include-core-structural-barlines', ('CORE', 'STRUCTURAL', 'BARLINES'), None),
     ('bekern-categories', 'BEKERN', None),
     ('include-noterest-header-ops', ('NOTE_REST', 'HEADER', 'SPINE_OPERATION'), None),
